@@ -90,7 +90,8 @@ func fail(why string) { panic(evalError{why}) }
 func FmtNum(f float64) string { return strconv.FormatFloat(f, 'g', -1, 64) }
 
 // printableNum reports whether a number lies in the region where the printed
-// forms agree: zero, or 1e-4 <= |v| < 1e6 with at most 14 significant digits.
+// forms agree: zero, or 1e-4 <= |v| < 1e15 with at most 14 significant digits
+// (numbers are written in positional notation there, integral or not).
 func printableNum(f float64) bool {
 	if f == 0 {
 		return !math.Signbit(f)
@@ -99,7 +100,7 @@ func printableNum(f float64) bool {
 		return false
 	}
 	a := math.Abs(f)
-	if a < 1e-4 || a >= 1e6 {
+	if a < 1e-4 || a >= 1e15 {
 		return false
 	}
 	s := strconv.FormatFloat(a, 'e', -1, 64)
